@@ -1204,60 +1204,69 @@ def check_symbolic(ck, facts, tier):
             continue
         key = "SymbolicAssembler::" + f.name
         two = f.name.endswith("2")
-        # dataflow over the Graph constructor calls: each local Graph variable gets a symbolic description
-        desc = {}
+        # dataflow over the Graph constructor calls: each local Graph variable gets a symbolic description; helpers of the
+        # assembler that return a Graph (extracted / shared bodies of the twin functions) are described with their
+        # parameters bound to the roles of the caller's arguments (depth <= 3)
         problems = []
-        params = {p["d"]: p["n"] for p in f.params}
-        prole = {}
-        if two:
-            prole = {f.params[0]["d"]: "test", f.params[1]["d"]: "trial"}
-        else:
-            prole = {f.params[0]["d"]: "space"}
+        by_decl = {g.d.get("decl"): g for g in facts.functions if g.tk != "pattern" and g.body is not None and g.d.get("decl") is not None}
 
-        def describe(n):
-            k = n.get("k")
-            if k == "Ref":
-                return desc.get(n.get("d"), ("?", n.get("n")))
-            if featlib.is_call(n):
-                c = n.get("callee", "")
-                if c.endswith("DofMappingRenderer::render"):
-                    a = n["a"][0]
-                    return ("dofs", prole.get(a.get("d"), "?")) if a.get("k") == "Ref" else ("?", "render")
-                if strip_targs(c) == "FEAT::Adjacency::Graph::Graph":
-                    args = n.get("a", [])
-                    if len(args) == 1:
-                        return describe(args[0])
-                    rt = args[0]
-                    rtn = (rt.get("qn") or rt.get("n") or "").rsplit("::", 1)[-1]
-                    if rtn == "transpose" and len(args) == 2:
-                        return ("T", describe(args[1]))
-                    if rtn in ("injectify", "injectify_sorted", "as_is", "as_is_sorted") and len(args) == 3:
-                        return ("o", rtn, describe(args[1]), describe(args[2]))
-                    if rtn in ("injectify", "injectify_sorted", "as_is", "as_is_sorted") and len(args) == 2:
-                        return ("id", rtn, describe(args[1]))
-                    return ("?", "Graph(%s,...)" % rtn)
-                if n.get("k") == "MCall":
-                    return ("call", n.get("n"), describe(n["obj"]) if n.get("obj") else None)
-                return ("call", c.rsplit("::", 1)[-1])
-            if k in ("Construct", "TempObj") and len(n.get("a", [])) == 1:
-                return describe(n["a"][0])
-            return ("?", k)
-        ret = None
-        graph_vars = {n["d"] for n in walk(f.body) if n.get("k") == "Var" and "Graph" in f.type(n.get("t"))}
-        rets = []
-        for n in walk(f.body):
-            if n.get("k") == "Var" and n.get("init") is not None and "Graph" in f.type(n.get("t")):
-                desc[n["d"]] = describe(n["init"])
-            # a Graph local declared first and assigned later (`Graph g; g = Graph(...)`): the assigned value; a second,
-            # different definition makes the variable unknown (decided as analysis-incomplete below)
-            if n.get("k") == "OpCall" and n.get("op") == "=" and len(n.get("a") or []) == 2 and (n["a"][0] or {}).get("k") == "Ref" and n["a"][0].get("d") in graph_vars:
-                dn = describe(n["a"][1])
-                d0 = n["a"][0]["d"]
-                desc[d0] = dn if desc.get(d0) in (None, dn, ("call", "Graph")) else ("?", "%s (several definitions)" % n["a"][0].get("n"))
-            if n.get("k") == "Return" and n.get("e") is not None:
-                rets.append(describe(n["e"]))
-        if rets:
-            ret = rets[0] if all(r == rets[0] for r in rets) else ("?", "several different return values")
+        def describe_function(fn, prole, depth):
+            desc = {}
+
+            def describe(n):
+                k = n.get("k")
+                if k == "Ref":
+                    return desc.get(n.get("d"), ("?", n.get("n")))
+                if featlib.is_call(n):
+                    c = n.get("callee", "")
+                    if c.endswith("DofMappingRenderer::render"):
+                        a = n["a"][0]
+                        return ("dofs", prole.get(a.get("d"), "?")) if a.get("k") == "Ref" else ("?", "render")
+                    if strip_targs(c) == "FEAT::Adjacency::Graph::Graph":
+                        args = n.get("a", [])
+                        if len(args) == 1:
+                            return describe(args[0])
+                        rt = args[0]
+                        rtn = (rt.get("qn") or rt.get("n") or "").rsplit("::", 1)[-1]
+                        if rtn == "transpose" and len(args) == 2:
+                            return ("T", describe(args[1]))
+                        if rtn in ("injectify", "injectify_sorted", "as_is", "as_is_sorted") and len(args) == 3:
+                            return ("o", rtn, describe(args[1]), describe(args[2]))
+                        if rtn in ("injectify", "injectify_sorted", "as_is", "as_is_sorted") and len(args) == 2:
+                            return ("id", rtn, describe(args[1]))
+                        return ("?", "Graph(%s,...)" % rtn)
+                    tgt = by_decl.get(n.get("cdecl"))
+                    if tgt is not None and depth < 3 and strip_targs(tgt.cls) == "FEAT::Assembly::SymbolicAssembler" and "Adjacency::Graph" in (tgt.type(tgt.d.get("ret")) if tgt.d.get("ret") is not None else ""):
+                        sub = {}
+                        for pp, a in zip(tgt.params, n.get("a", [])):
+                            a0 = norm.strip(a) or {}
+                            if a0.get("k") == "Ref" and a0.get("d") in prole:
+                                sub[pp["d"]] = prole[a0["d"]]
+                        return describe_function(tgt, sub, depth + 1)
+                    if n.get("k") == "MCall":
+                        return ("call", n.get("n"), describe(n["obj"]) if n.get("obj") else None)
+                    return ("call", c.rsplit("::", 1)[-1])
+                if k in ("Construct", "TempObj") and len(n.get("a", [])) == 1:
+                    return describe(n["a"][0])
+                return ("?", k)
+            graph_vars = {n["d"] for n in walk(fn.body) if n.get("k") == "Var" and "Graph" in fn.type(n.get("t"))}
+            rets = []
+            for n in walk(fn.body):
+                if n.get("k") == "Var" and n.get("init") is not None and "Graph" in fn.type(n.get("t")):
+                    desc[n["d"]] = describe(n["init"])
+                # a Graph local declared first and assigned later (`Graph g; g = Graph(...)`): the assigned value; a second,
+                # different definition makes the variable unknown (decided as analysis-incomplete below)
+                if n.get("k") == "OpCall" and n.get("op") == "=" and len(n.get("a") or []) == 2 and (n["a"][0] or {}).get("k") == "Ref" and n["a"][0].get("d") in graph_vars:
+                    dn = describe(n["a"][1])
+                    d0 = n["a"][0]["d"]
+                    desc[d0] = dn if desc.get(d0) in (None, dn, ("call", "Graph")) else ("?", "%s (several definitions)" % n["a"][0].get("n"))
+                if n.get("k") == "Return" and n.get("e") is not None:
+                    rets.append(describe(n["e"]))
+            if not rets:
+                return None
+            return rets[0] if all(r == rets[0] for r in rets) else ("?", "several different return values")
+        prole = {f.params[0]["d"]: "test", f.params[1]["d"]: "trial"} if two else {f.params[0]["d"]: "space"}
+        ret = describe_function(f, prole, 0)
 
         def flat(d):
             """composition chain, left to right; transposition is pushed inside: T(A o B) = T(B) o T(A), T(T(x)) = x"""
@@ -1305,12 +1314,16 @@ def check_permutation_applied(ck, facts, tier):
             continue
         env = norm.DefEnv(f)
         pnames = {p["d"]: p["n"] for p in f.params}
+        ptypes = {p["d"]: f.type(p.get("t")) for p in f.params}
+        if "Adjacency::Graph" not in (f.type(f.d.get("ret")) if f.d.get("ret") is not None else "Adjacency::Graph"):
+            continue
 
         def perm_key(x, depth=0):
             a = env.alias(x)
             while a is not None and a.get("k") == "Ref" and depth < 6 and "Permutation" in (env.types.get(a.get("d")) or "") and env.single_def(a.get("d")) is not None:
                 a = env.alias(env.single_def(a["d"]))
                 depth += 1
+            # (permutations received as PARAMETERS are not judged: a helper runs under its caller's emptiness tests)
             if a is None or a.get("k") != "MCall" or a.get("n") not in ("get_perm", "get_inv_perm"):
                 return None
             o = a.get("obj")
@@ -1428,9 +1441,12 @@ def check_permutation_applied(ck, facts, tier):
                     elif featlib.is_call(n) and kk in ("Call", "MCall", "OpCall", "Construct", "TempObj"):
                         args = n.get("a") or []
                         allT = frozenset().union(*[T(a) for a in args]) if args else frozenset()
-                        for a in args:
-                            if perm_key(a):
-                                applied.setdefault(perm_key(a), n.get("l"))
+                        # only the consumers that dereference a permutation (Adjacency::Graph / Permutation members) count as an
+                        # application; a helper of the assembler that receives the permutation may test emptiness itself
+                        if (n.get("callee") or "").startswith("FEAT::Adjacency::"):
+                            for a in args:
+                                if perm_key(a):
+                                    applied.setdefault(perm_key(a), n.get("l"))
                         if kk == "MCall" and n.get("obj") is not None:
                             allT |= T(n["obj"])
                             if not n.get("cconst"):
